@@ -1116,6 +1116,7 @@ def parse_attribute_variables(query_text, prefix, column_names, column_names_sou
     # * check if column_name is not among reserved python keywords like "None", "if", "else", etc
     assert prefix in ['a', 'b']
     column_names = {v: i for i, v in enumerate(column_names)}
+    query_text = separate_string_literals(query_text)[0] # Text inside string literals is not a variable
     rgx = r'(?:^|[^_a-zA-Z0-9]){}\.([_a-zA-Z][_a-zA-Z0-9]*)'.format(prefix)
     matches = list(re.finditer(rgx, query_text))
     column_names_from_query = list(set([m.group(1) for m in matches]))
